@@ -259,6 +259,14 @@ class Realiser:
         return mac["build"](ops(st["mv"]), st["mv"], args, st.get("p", {}))
 
     def model_of(self, md):
+        if md["kind"] == "if_ml":
+            from spox import build
+
+            o, m = ops(md["mv"]), ml(md["mlv"])
+            r = Realiser()
+            res = o.if_(o.const(np.array(True)), then_branch=lambda: [m.scaler(r.x, offset=[0.5], scale=[2.0])],
+                        else_branch=lambda: [o.neg(r.x)])[0]
+            return build({"a": r.x}, {"b": res})
         if md["kind"] == "old":
             return old_model(md["body"], md["opset"])
         from spox import build
@@ -299,6 +307,8 @@ def np_stmt(st, env, c):
     if op == "inline":
         md = st["model"]
         a = env[st["args"][0]]
+        if md["kind"] == "if_ml":
+            return ((a - F32(0.5)) * F32(2.0)).astype(F32)
         if md["kind"] == "old":
             return OLD_NP[md["body"]](a).astype(F32)
         e = {"x": a}
@@ -355,6 +365,10 @@ def sub_blocks(st):
 
 def model_imports(md) -> list[tuple[str, int]]:
     """Opset imports of an inlined model, from its description alone."""
+    if md["kind"] == "if_ml":
+        req = [("", since("", n, md["mv"])) for n in ("If", "Constant", "Neg")] + [("", 14)]
+        req.append(("ai.onnx.ml", since("ai.onnx.ml", "Scaler", md["mlv"])))
+        return sorted(policy(req).items())
     if md["kind"] == "old":
         return [("", md["opset"])]
     req = requirements_of_nodes(md["prog"]["nodes"])
@@ -546,7 +560,8 @@ class Gen:
                 self.max_depth = min(self.max_depth, 1)
                 body, bt = self.block(params, set(), 1, 0, in_func=True)
                 self.max_depth = save
-                st = {"id": self.fresh(), "op": "func", "name": f"f{next(_uid)}", "params": params,
+                st = {"id": self.fresh(), "op": "func", "name": f"f{next(_uid)}",
+                      "domain": rng.choice(["spox.verif", "verif.other"]), "params": params,
                       "body": body, "args": [rng.choice([p for p in pool if p not in tainted] or ["x"])
                                              for _ in range(np_)]}
             elif r < 0.36 and self.allow_ml:
@@ -576,6 +591,8 @@ class Gen:
 
     def model_desc(self):
         rng = self.rng
+        if rng.random() < 0.12:
+            return {"kind": "if_ml", "mv": rng.choice(DEFAULT_VERSIONS), "mlv": rng.choice(ML_VERSIONS)}
         if rng.random() < 0.6:
             body = rng.choice(["unsq_sq_relu", "rsum_attr", "relu_neg"])
             opset = rng.choice([11, 12]) if body != "relu_neg" else rng.choice([11, 13, 15])
